@@ -53,6 +53,7 @@ Inductive op :=
 | StartMerge (srcs : list N)            (* IndexWriter::merge(segment_ids) *)
 | StartPolicyMerge (srcs : list N)      (* a candidate returned by the merge policy *)
 | EndMerge (k : nat)                    (* the k-th merge in flight reaches end_merge *)
+| AbortMerge (k : nat)                  (* merge() of the k-th merge in flight returned an error (I/O): end_merge is never called *)
 | Observe (ids : list N).               (* harness: ids published at this point (no effect) *)
 
 Definition init : wstate := mkW 0 [] [] 0 [] [] 0 [] [] 0 0.
@@ -163,6 +164,11 @@ Definition end_merge (k : nat) (s : wstate) : wstate :=
         else drop                                                 (* sources gone: the merge is discarded *)
   end.
 
+(* start_merge's closure on Err(merge_error): the error is sent to the caller, the MergeOperation is dropped *)
+Definition abort_merge (k : nat) (s : wstate) : wstate :=
+  mkW (w_stamp s) (w_queue s) (w_pending s) (w_pcursor s) (w_unc s) (w_com s) (w_copstamp s) (w_meta s)
+      (remove_nth k (w_merges s)) (w_epoch s) (w_next_seg s).
+
 Definition step (s : wstate) (o : op) : wstate :=
   match o with
   | Add id tag =>
@@ -185,6 +191,7 @@ Definition step (s : wstate) (o : op) : wstate :=
   | StartMerge srcs => start_merge false srcs s
   | StartPolicyMerge srcs => start_merge true srcs s
   | EndMerge k => end_merge k s
+  | AbortMerge k => abort_merge k s
   | Observe _ => s
   end.
 
@@ -197,7 +204,7 @@ Definition sort_ids (l : list N) : list N := fold_right insert_id [] l.
 Definition published (s : wstate) : list N := sort_ids (map sd_id (concat (map e_docs (w_meta s)))).
 
 Definition is_merge_op (o : op) : bool :=
-  match o with StartMerge _ | StartPolicyMerge _ | EndMerge _ => true | _ => false end.
+  match o with StartMerge _ | StartPolicyMerge _ | EndMerge _ | AbortMerge _ => true | _ => false end.
 Definition strip (ops : list op) : list op := filter (fun o => negb (is_merge_op o)) ops.
 
 (* ------------------------------------------------------------------ sequential specification
